@@ -119,6 +119,12 @@ def run(ctx):
         i = rx.info(lits[0][1])
         ctx.check(i.get("ok") and i.get("explicit_captures") == 2 and not i.get("anchored_start"), "C14-R1", "comment-regex-shape",
                   "comment regex is unanchored with two groups (one per comment style)", lits[0][0].where())
+        # a block comment ends at the first `*/`: with a greedy group `/* note */ /* breadlog:ignore */` is one match whose
+        # text is ` note */ /* breadlog:ignore ` and the directive is not seen
+        blk = [b for b in (i.get("branches") or []) if b.get("prefix") == "/*"]
+        lazy = len(blk) == 1 and len(blk[0].get("captures", [])) == 1 and blk[0]["captures"][0].get("greedy") == [False]
+        ctx.check(lazy, "C14-R1", "comment-regex-block-lazy", "the block-comment group stops at the first `*/` (non-greedy): %s" %
+                  ([c.get("greedy") for b in blk for c in b.get("captures", [])] or "no `/*` alternative"), lits[0][0].where())
 
     # ---- R2, R3, R5 in the shared scan ----------------------------------------------------
     s = facts.one(BOOL_FN)
@@ -175,8 +181,8 @@ def run(ctx):
         nexts = [c for c in s.calls_to(r"Iterator>::next$") if "Lines" in c.full]
         caps = s.calls_to(r"^regex::Regex::(captures|captures_iter|find|is_match)$")
         empties = s.calls_to(r"str>::is_empty$|::is_empty$")
-        ok = len(lines) == 1 and len(revs) == 1 and len(nexts) == 1 and len(caps) == 1 and caps[0].matches(r"::captures$") and len(empties) >= 1
-        if ctx.check(ok, "C14-R3", "anchor|scan-shape", "scan = code[..end].lines().rev(), is_empty(), regex.captures() (%d/%d/%d/%d/%d)" % (
+        ok = len(lines) == 1 and len(revs) == 1 and len(nexts) == 1 and len(caps) == 1 and caps[0].matches(r"::captures(_iter)?$") and len(empties) >= 1
+        if ctx.check(ok, "C14-R3", "anchor|scan-shape", "scan = code[..end].lines().rev(), is_empty(), regex.captures() / captures_iter() (%d/%d/%d/%d/%d)" % (
                 len(lines), len(revs), len(nexts), len(caps), len(empties)), s.where()):
             nx, cp = nexts[0], caps[0]
             chain, root = call_chain(s, nx.args[0])
@@ -389,6 +395,19 @@ def run(ctx):
                         N_ok = tt in dom.get(N.bb, ())
                         ctx.check(N_ok, "C14-R4", "nokvp-structured", "the no-kvp directive is only consulted in structured mode", N.where())
             ctx.check(N_ok, "C14-R4", "nokvp-structured-anchor", "a branch on config.rust.structured guards the no-kvp check", N.where())
+    # R6: what the scan knows about comments. It is handed raw text and a regex, nothing from the parser, so it
+    # cannot tell where a comment starts or ends: (a) a line inside a multi-line block comment is read as if it
+    # stood alone; (b) `captures` yields the left-most match only, and the block alternative is greedy.
+    s6 = ctx.bin.one(BOOL_FN)
+    if s6 is not None:
+        ptys = [s6.local_ty(i) or "" for i in range(1, 1 + s6.j.get("arg_count", 4))]
+        parser_in = [t for t in ptys if "pest::" in t or "Pair" in t or "Span" in t]
+        ctx.check(bool(parser_in), "C14-R6", "line-text-scan|multi-line-comment|%s" % s6.id.split("::")[-1],
+                  "the directive scan is told where comments begin and end (found: it receives only %s and applies the comment regex to the raw text of one line, so `// breadlog:ignore` on a line inside a multi-line `/* ... */` is honoured)" % ptys, s6.where())
+        caps6 = s6.calls_to(r"^regex::Regex::(captures|captures_iter|find|find_iter|is_match)$")
+        every = [c for c in caps6 if c.matches(r"::(captures_iter|find_iter)$")]
+        ctx.check(bool(every) or bool(parser_in), "C14-R6", "line-text-scan|leftmost-comment-only|%s" % s6.id.split("::")[-1],
+                  "every comment on the directive line is examined (found: %s, which yields the left-most match only; with two comments on the line, `/* note */ // breadlog:ignore`, the directive is not seen)" % ([c.name.split("::")[-1] for c in caps6] or "no regex call"), s6.where())
     ctx.assume("`str::lines()` splits at \\n and strips a trailing \\r; `to_lowercase` handles non-ASCII case (std contracts)")
     ctx.assume("what counts as 'the line on which a statement starts' is the line of the first byte of the macro name (pest span)")
     return {
